@@ -137,6 +137,12 @@ func (r *Report) Finish(verifDir string, w *World, explanation string, notDecide
 				fmt.Sprintf("rule matched %d instance(s), fewer than the %d confirmed by hand on the reference tree: the construct this rule guards was removed or can no longer be recognised", counts[rule], r.mins[rule]), false)
 		}
 	}
+	if os.Getenv("CONDUITLINT_OBS") == "1" {
+		// debug: list every obligation
+		for _, o := range r.Obs {
+			fmt.Printf("  OB %s [%s] %s %s: %s\n", o.Rule, o.Key, o.Status, o.Pos, oneLine(o.Detail))
+		}
+	}
 	// known findings
 	known := loadKnown(filepath.Join(verifDir, "known-findings.json"))
 	usedKnown := map[int]bool{}
